@@ -206,6 +206,12 @@ def check_meshops(st, fs, known):
                     v.append(('a kept mesh mapper asked to map a second source answers differently from a fresh mapper', case, r_fresh['f'].tolist()[:4], r_kept['f'].tolist()[:4]))
                 if not close(r['f'].to_numpy(), src['f'].to_numpy()) or list(r.index) != list(same.index):
                     v.append(('mapping a mesh field onto the same points does not return the field', case, None, None))
+                # the target frame stores its coordinate columns in another order than the source (z, x, y against x, y, z; a foreign column in between)
+                perm_t = same[['z', 'x', 'y']].copy()
+                perm_t.insert(1, 'weight', 1.0)
+                rp = perm_t.meshmapper.process(src[['f', 'y', 'x', 'z']], 'f')
+                if not close(rp['f'].to_numpy(), src['f'].to_numpy()) or list(rp.index) != list(same.index):
+                    v.append(('mapping onto the same points given with their coordinate columns in another order (z, x, y / y, x, z) does not return the field', case, src['f'].tolist()[:4], rp['f'].tolist()[:4]))
                 if min(d) >= 1:
                     pts = []
                     for c in st['out']['elems']:
